@@ -17,7 +17,29 @@
 //!    were emitted before `t0` and silent since) number at most Q-1, no busy slot can have been evicted, so S
 //!    must be emitted exactly at `t1`.  Every honest single-frame packet must be emitted on arrival;
 //!  * no panic.
-use std::collections::{HashMap, HashSet};
+//!
+//! A second stream (`e2e`, see the section before `main`) drives the production data path around the
+//! reassembler - a real `EdgeTunServerState` and `EdgeTunClientState` after a WireGuard handshake, in both
+//! directions - with delivery schedules of the encrypted datagrams, and applies the same clauses to what the
+//! receiving side hands to the tunnel (keys `C17:e2e:*`).
+use std::{
+    collections::{HashMap, HashSet, VecDeque},
+    net::{IpAddr, Ipv4Addr, SocketAddr},
+    sync::Arc,
+    time::Instant,
+};
+
+use ana_gotatun::{
+    noise::{TunnResult, rate_limiter::RateLimiter},
+    packet::{Packet, WgKind},
+    x25519,
+};
+use anapaya_edge_tun::data::{
+    client_state::{EdgeTunClientConfig, EdgeTunClientState},
+    common::{AsIpAddr, EdgePacketBufPool},
+    server::{EdgeTunAuthz, EdgeTunServerState, InboundTrafficPolicy},
+};
+use anapaya_edge_tun::fragmenting::metrics::{DefragmentMetrics, FragmentMetrics};
 
 use anapaya_edge_tun::fragmenting::{
     DefragmentInsertError, Defragmenter, Fragmenter, FragmenterSendError, MAX_MTU, MAX_PACKET_SIZE, MIN_MTU,
@@ -739,6 +761,811 @@ fn shrink(s: &Schedule, lean: &mut Lean, fails: &dyn Fn(&Outcome) -> bool) -> Sc
     cur
 }
 
+// ------------------------------------------------------------------------------------------------
+// e2e stream: the production data path (data/server.rs + data/client_state.rs), both directions
+// ------------------------------------------------------------------------------------------------
+//
+// A real `EdgeTunServerState` and a real `EdgeTunClientState` complete a WireGuard handshake; packets are
+// handed to the sending side (`handle_outgoing_packet`), the encrypted datagrams it produces are delivered to
+// the receiving side (`handle_incoming_packet`) in the order of the schedule (reordered, interleaved, lost,
+// late, duplicated), and what the receiving side hands to the tunnel (`TunnResult::WriteToTunnel`) is judged:
+//  * C17:e2e:integrity      every packet handed to the tunnel is byte-identical to a packet that was sent;
+//  * C17:e2e:at-most-once   no packet is handed over twice (WireGuard's anti-replay drops exact copies of a
+//                           datagram, so neither open finding of the bare reassembler is reachable here: strict);
+//  * C17:e2e:not-delivered  liveness by the counting argument of the bare stream: t0 = first, t1 = completing
+//                           datagram of a multi-frame packet S (copies of a datagram already delivered do not
+//                           count: the transport drops them).  Streams that can hold a slot up to t1 = other
+//                           multi-frame packets with a datagram delivered up to t1, except those already handed
+//                           to the tunnel before t0.  At most Q-1 of them => no busy slot was ever evicted => S
+//                           must be handed over exactly at t1;
+//  * C17:e2e:not-delivered:older-packets-cannot-reclaim   the same argument counting only packets sent AFTER S.
+//                           A busy slot is reclaimed only for a packet that is given a slot while no slot is
+//                           idle, the victim is the oldest busy slot (property record: "eviction of oldest"), and
+//                           a packet older than every slot is refused, never given one (module doc of
+//                           fragmenting.rs, TooOld).  So S loses its slot only when Q-1 other slots hold newer
+//                           packets and one more newer packet arrives: with at most Q-1 newer competitors S must
+//                           be handed over at t1, however many OLDER packets' late frames arrive in between;
+//  * C17:e2e:not-delivered:single-frame   a single-datagram packet is handed over when it first arrives;
+//  * C17:e2e:panic          no call panics.
+// Model correspondence: the plaintext frames are recomputed with a `Fragmenter` of the same MTU fed the same
+// packets (the sender's is private, its output is encrypted); the frames of the datagrams the transport accepts
+// are fed, in arrival order, to the Lean model of the Defragmenter with the receiver's queue count, and the model's
+// emissions are compared with what the glue handed to the tunnel.
+
+#[derive(Debug, Clone, Copy, PartialEq, Eq, Hash)]
+struct Net(SocketAddr);
+impl AsIpAddr for Net {
+    fn ip(&self) -> Option<IpAddr> {
+        Some(self.0.ip())
+    }
+}
+struct Authz(x25519::PublicKey, IpAddr);
+impl EdgeTunAuthz<IpAddr> for Authz {
+    fn is_authorized(&self, _now: Instant, identity: &x25519::PublicKey) -> Option<IpAddr> {
+        (identity == &self.0).then_some(self.1)
+    }
+}
+struct AllowAll;
+impl InboundTrafficPolicy<IpAddr> for AllowAll {
+    fn check_inbound_policy(&self, _: &x25519::PublicKey, _: &IpAddr, _: &[u8]) -> bool {
+        true
+    }
+}
+
+/// WireGuard data message: 16 B header + 16 B tag around the plaintext (ana-gotatun does not pad)
+const WG_OVERHEAD: usize = 32;
+/// WireGuard anti-replay window of ana-gotatun (session.rs N_BITS); schedules stay far below it so that only
+/// exact copies are dropped by the transport
+const WG_REORDER_WINDOW: usize = 1024;
+const E2E_MAX_DATAGRAMS: usize = 600;
+const TRIGGER: [u8; 1] = [0xEE];
+
+#[derive(Clone)]
+struct E2e {
+    kind: String,
+    /// true: server sends, client reassembles (`queues` slots); false: client sends, server reassembles
+    to_client: bool,
+    /// `defrag_queue_counts` of the client
+    queues: usize,
+    /// MTU / fragment size configured on both sides (clamped to MIN_MTU..MAX_MTU by the Fragmenter)
+    mtu: u16,
+    seed: u64,
+    sizes: Vec<usize>,
+    /// delivery schedule: (packet, index of the datagram among those the sender produced for it)
+    order: Vec<(usize, usize)>,
+}
+
+fn e2e_payload(seed: u64, idx: usize, size: usize) -> Vec<u8> {
+    let mut r = Rng::new(seed ^ ((idx as u64 + 1).wrapping_mul(0x9E37_79B9_7F4A_7C15)));
+    let mut d = r.bytes(size);
+    if let Some(b) = d.first_mut() {
+        *b = idx as u8; // packets of one case are pairwise different (fewer than 256 packets per case)
+    }
+    d
+}
+
+fn e2e_line(c: &E2e) -> String {
+    format!(
+        "e2e {} {} {} {} {} {}",
+        if c.to_client { "s2c" } else { "c2s" },
+        c.queues,
+        c.mtu,
+        c.seed,
+        if c.sizes.is_empty() { "-".to_string() } else { c.sizes.iter().map(|s| s.to_string()).collect::<Vec<_>>().join(",") },
+        c.order.iter().map(|(p, f)| format!("{p}.{f}")).collect::<Vec<_>>().join(" ")
+    )
+}
+
+fn parse_e2e_line(l: &str) -> Option<E2e> {
+    let mut it = l.split_whitespace();
+    if it.next()? != "e2e" {
+        return None;
+    }
+    let to_client = match it.next()? {
+        "s2c" => true,
+        "c2s" => false,
+        _ => return None,
+    };
+    let queues = it.next()?.parse().ok()?;
+    let mtu = it.next()?.parse().ok()?;
+    let seed = it.next()?.parse().ok()?;
+    let sz = it.next()?;
+    let sizes = if sz == "-" { vec![] } else { sz.split(',').map(|x| x.parse().ok()).collect::<Option<Vec<usize>>>()? };
+    let order = it
+        .map(|t| {
+            let (a, b) = t.split_once('.')?;
+            Some((a.parse().ok()?, b.parse().ok()?))
+        })
+        .collect::<Option<Vec<(usize, usize)>>>()?;
+    Some(E2e { kind: "corpus e2e".into(), to_client, queues, mtu, seed, sizes, order })
+}
+
+/// queue count of the per-tunnel Defragmenter of the server, read from the source the harness is built against
+fn server_queue_count() -> Option<usize> {
+    let src = std::fs::read_to_string("/repo/crates/libs/anapaya-edge-tun/src/data/server.rs").ok()?;
+    let mut found: Vec<usize> = vec![];
+    let pat = "Defragmenter::new(";
+    let code = src.split("#[cfg(test)]").next().unwrap_or(&src);
+    let mut rest = code;
+    while let Some(i) = rest.find(pat) {
+        rest = &rest[i + pat.len()..];
+        let arg: String = rest.chars().take_while(|c| *c != ',').collect();
+        found.push(arg.trim().replace('_', "").parse().ok()?);
+    }
+    if found.len() == 1 { Some(found[0]) } else { None }
+}
+
+struct Pair {
+    srv: EdgeTunServerState<Authz, AllowAll, Net, IpAddr>,
+    client: EdgeTunClientState<Net>,
+    pool: EdgePacketBufPool,
+    taddr: IpAddr,
+}
+
+enum Rx {
+    Pkt(Vec<u8>),
+    Done,
+    Err(String),
+    Other(String),
+}
+
+fn e2e_net() -> Net {
+    Net("127.0.0.1:51820".parse().unwrap())
+}
+
+impl Pair {
+    fn new(mtu: u16, client_queues: usize) -> Pair {
+        let keypair = |seed: u8| {
+            let mut k = [0u8; 32];
+            k[1] = seed;
+            let s = x25519::StaticSecret::from(k);
+            let p = x25519::PublicKey::from(&s);
+            (s, p)
+        };
+        let pool = EdgePacketBufPool::new(16);
+        let (server_secret, server_public) = keypair(1);
+        let (client_secret, client_public) = keypair(2);
+        let taddr = IpAddr::V4(Ipv4Addr::new(10, 0, 0, 1));
+        // the metrics registry type is not a dependency of the harness crate: `Default` is inferred
+        let srv = EdgeTunServerState::new(
+            server_secret,
+            Arc::new(RateLimiter::new(&server_public, 100)),
+            Arc::new(Authz(client_public, taddr)),
+            Arc::new(AllowAll),
+            pool.clone(),
+            mtu,
+            FragmentMetrics::new(&Default::default()),
+            DefragmentMetrics::new(&Default::default()),
+        );
+        let client = EdgeTunClientState::new(
+            pool.clone(),
+            EdgeTunClientConfig {
+                peer_static: server_public,
+                static_secret: client_secret,
+                rate_limit: 100,
+                mtu,
+                defrag_queue_counts: client_queues,
+                persistent_keep_alive: None,
+            },
+            FragmentMetrics::new(&Default::default()),
+            DefragmentMetrics::new(&Default::default()),
+        );
+        Pair { srv, client, pool, taddr }
+    }
+
+    fn packet(&self, payload: &[u8]) -> Packet {
+        if payload.len() > 60000 {
+            return Packet::from_bytes(bytes::BytesMut::from(payload));
+        }
+        let mut p = self.pool.get();
+        let buf = p.buf_mut();
+        buf.truncate(0);
+        buf.extend_from_slice(payload);
+        p
+    }
+
+    /// client -> init, server -> response, client -> the queued trigger packet (confirms the session)
+    fn handshake(&mut self) -> Result<(), String> {
+        let mut cq = VecDeque::new();
+        self.client.handle_outgoing_packet(self.packet(&TRIGGER), &mut cq);
+        let init = cq.pop_front().ok_or("client produced no handshake initiation")?;
+        let mut sq = VecDeque::new();
+        let r = self.srv.handle_incoming_packet(e2e_net(), Packet::from(init).into_bytes(), &mut sq);
+        if !matches!(r, TunnResult::Done) {
+            return Err(format!("server on handshake initiation: {r:?}"));
+        }
+        let resp = sq.pop_front().ok_or("server produced no handshake response")?;
+        let mut cq = VecDeque::new();
+        let r = self.client.handle_incoming_packet(e2e_net(), Packet::from(resp).into_bytes(), &mut cq);
+        if !matches!(r, TunnResult::Done) {
+            return Err(format!("client on handshake response: {r:?}"));
+        }
+        let mut got = vec![];
+        for wg in cq {
+            let mut sq = VecDeque::new();
+            if let TunnResult::WriteToTunnel(p) = self.srv.handle_incoming_packet(e2e_net(), Packet::from(wg).into_bytes(), &mut sq) {
+                got.push(p.to_vec());
+            }
+        }
+        if got != vec![TRIGGER.to_vec()] {
+            return Err(format!("the packet that triggered the handshake was not handed to the server's tunnel exactly once ({} deliveries)", got.len()));
+        }
+        Ok(())
+    }
+
+    /// hand one packet to the sending side; the datagrams it wants on the network
+    fn send(&mut self, to_client: bool, data: &[u8]) -> Result<Vec<Vec<u8>>, String> {
+        let pkt = self.packet(data);
+        let mut out = vec![];
+        let mut bad = None;
+        let mut take = |wg: WgKind| {
+            if !matches!(wg, WgKind::Data(_)) {
+                bad = Some("sender produced a WireGuard message that is not a data message");
+            }
+            out.push(Packet::from(wg).into_bytes().to_vec());
+        };
+        if to_client {
+            let mut q: VecDeque<(Net, WgKind)> = VecDeque::new();
+            self.srv.handle_outgoing_packet(pkt, &self.taddr, &mut q);
+            q.into_iter().for_each(|(_, wg)| take(wg));
+        } else {
+            let mut q: VecDeque<WgKind> = VecDeque::new();
+            self.client.handle_outgoing_packet(pkt, &mut q);
+            q.into_iter().for_each(|wg| take(wg));
+        }
+        match bad {
+            Some(m) => Err(m.into()),
+            None => Ok(out),
+        }
+    }
+
+    /// deliver one datagram to the receiving side
+    fn deliver(&mut self, to_client: bool, datagram: &[u8]) -> Rx {
+        let pkt = Packet::from_bytes(bytes::BytesMut::from(datagram));
+        let mut q = VecDeque::new();
+        let r = if to_client { self.client.handle_incoming_packet(e2e_net(), pkt, &mut q) } else { self.srv.handle_incoming_packet(e2e_net(), pkt, &mut q) };
+        match r {
+            TunnResult::WriteToTunnel(p) => Rx::Pkt(p.to_vec()),
+            TunnResult::Done => Rx::Done,
+            TunnResult::Err(e) => Rx::Err(format!("{e:?}")),
+            TunnResult::WriteToNetwork(_) => Rx::Other("WriteToNetwork".into()),
+        }
+    }
+}
+
+#[derive(Default)]
+struct E2eOut {
+    spec: Vec<(String, String)>,
+    disagree: Option<(usize, String, String)>,
+    /// per delivery step
+    labels: Vec<String>,
+    frames_per_packet: Vec<usize>,
+    handed_over: usize,
+    handed_over_reassembled: usize,
+    complete_not_handed_over: usize,
+    dup_dropped: usize,
+    claims: usize,
+    claims_older_only: usize,
+    claims_disturbed: usize,
+    singles_claimed: usize,
+    model_frames: usize,
+}
+
+fn run_e2e(c: &E2e, lean: &mut Option<&mut Lean>, server_q: Option<usize>) -> E2eOut {
+    let mut out = E2eOut::default();
+    let dir = if c.to_client { "server->client" } else { "client->server" };
+    let q_eff = if c.to_client { Some(c.queues) } else { server_q };
+    let mut pair = match catch(|| Pair::new(c.mtu, c.queues)) {
+        Ok(p) => p,
+        Err(m) => {
+            out.spec.push(("C17:e2e:panic".into(), format!("constructing the server/client state (mtu {}, {} queues) panicked: {m}", c.mtu, c.queues)));
+            return out;
+        }
+    };
+    match catch(|| pair.handshake()) {
+        Ok(Ok(())) => {}
+        Ok(Err(m)) => {
+            out.spec.push(("C17:e2e:handshake".into(), m));
+            return out;
+        }
+        Err(m) => {
+            out.spec.push(("C17:e2e:panic".into(), format!("handshake panicked: {m}")));
+            return out;
+        }
+    }
+    // plaintext frames, recomputed: same MTU, same packets in the same order (the client's fragmenter has
+    // already sent the trigger packet)
+    let mut shadow = Fragmenter::new_unobserved(c.mtu as usize);
+    let mut trigger_frame = vec![];
+    if !c.to_client {
+        let _ = shadow.send(&TRIGGER, |f| trigger_frame = f.to_vec());
+    }
+    let mut sent: Vec<Vec<u8>> = vec![];
+    let mut grams: Vec<Vec<Vec<u8>>> = vec![];
+    let mut frames: Vec<Vec<Vec<u8>>> = vec![];
+    let mut shape_ok = true;
+    for (i, size) in c.sizes.iter().enumerate() {
+        let data = e2e_payload(c.seed, i, *size);
+        let g = match catch(|| pair.send(c.to_client, &data)) {
+            Ok(Ok(g)) => g,
+            Ok(Err(m)) => {
+                out.spec.push(("C17:e2e:sender-output".into(), format!("{dir}: packet #{i} ({size} B): {m}")));
+                shape_ok = false;
+                vec![]
+            }
+            Err(m) => {
+                out.spec.push(("C17:e2e:panic".into(), format!("{dir}: handle_outgoing_packet panicked on packet #{i} ({size} B, mtu {}): {m}", c.mtu)));
+                shape_ok = false;
+                vec![]
+            }
+        };
+        let mut fs: Vec<Vec<u8>> = vec![];
+        let _ = shadow.send(&data, |f| fs.push(f.to_vec()));
+        if g.len() != fs.len() || g.iter().zip(&fs).any(|(d, f)| d.len() != f.len() + WG_OVERHEAD) {
+            if shape_ok {
+                out.spec.push((
+                    "C17:e2e:sender-shape".into(),
+                    format!("{dir}: packet #{i} ({size} B, mtu {}): the sender produced {} datagrams of sizes {:?}, a Fragmenter of that MTU yields {} frames of sizes {:?} (+{WG_OVERHEAD} each)", c.mtu, g.len(), g.iter().map(|d| d.len()).take(6).collect::<Vec<_>>(), fs.len(), fs.iter().map(|f| f.len()).take(6).collect::<Vec<_>>()),
+                ));
+            }
+            shape_ok = false;
+        }
+        out.frames_per_packet.push(g.len());
+        sent.push(data);
+        grams.push(g);
+        frames.push(fs);
+    }
+    let total: usize = grams.iter().map(|g| g.len()).sum();
+    if total + 2 >= WG_REORDER_WINDOW {
+        out.spec.push(("C17:e2e:harness-limit".into(), format!("{total} datagrams in one session: beyond the transport's reorder window, the oracle's transport model does not hold")));
+        return out;
+    }
+    let mut use_model = shape_ok && q_eff.is_some();
+    if let (true, Some(l)) = (use_model, lean.as_mut()) {
+        l.ask(&format!("new {}", q_eff.unwrap()));
+        if !c.to_client {
+            let mo = l.ask(&format!("recv {}", hex(&trigger_frame)));
+            if l.differs(&mo, &format!("pkt 0 {}", hex(&TRIGGER))) {
+                out.disagree = Some((0, "trigger packet handed to the tunnel".into(), mo));
+            }
+        }
+    } else {
+        use_model = false;
+    }
+    // ---- delivery ----
+    let n = sent.len();
+    let mut seen: HashSet<(usize, usize)> = HashSet::new();
+    // accepted deliveries (first copies) per packet: (step, datagram index)
+    let mut acc: Vec<Vec<(usize, usize)>> = vec![vec![]; n];
+    // steps at which packet i was handed to the tunnel
+    let mut handed: Vec<Vec<usize>> = vec![vec![]; n];
+    for (k, (p, f)) in c.order.iter().enumerate() {
+        let Some(d) = grams.get(*p).and_then(|g| g.get(*f)) else {
+            out.labels.push("skipped (no such datagram)".into());
+            continue;
+        };
+        let first = seen.insert((*p, *f));
+        let r = catch(|| pair.deliver(c.to_client, d));
+        let mut got: Option<Vec<u8>> = None;
+        let label = match r {
+            Err(m) => {
+                out.spec.push(("C17:e2e:panic".into(), format!("{dir}: handle_incoming_packet panicked at step #{k} (datagram {p}.{f}): {m}")));
+                "panic".to_string()
+            }
+            Ok(Rx::Pkt(b)) => {
+                got = Some(b);
+                String::new()
+            }
+            Ok(Rx::Done) => if first { "done".into() } else { "copy: done".into() },
+            Ok(Rx::Err(e)) => {
+                if first {
+                    out.spec.push(("C17:e2e:transport-rejected".into(), format!("{dir}: step #{k}: the first copy of datagram {p}.{f} was rejected by the transport ({e}); the oracle assumes only exact copies are dropped")));
+                }
+                if first { format!("err {e}") } else { format!("copy: err {e}") }
+            }
+            Ok(Rx::Other(e)) => {
+                out.spec.push(("C17:e2e:unexpected-result".into(), format!("{dir}: step #{k} (datagram {p}.{f}): {e}")));
+                e
+            }
+        };
+        if first {
+            acc[*p].push((k, *f));
+        } else {
+            out.dup_dropped += 1;
+        }
+        let label = if let Some(b) = &got {
+            out.handed_over += 1;
+            match sent.iter().position(|s| s == b) {
+                Some(i) => {
+                    handed[i].push(k);
+                    if grams[i].len() > 1 {
+                        out.handed_over_reassembled += 1;
+                    }
+                    if handed[i].len() > 1 {
+                        out.spec.push(("C17:e2e:at-most-once".into(), format!("{dir}: packet #{i} ({} B, {} datagrams) handed to the tunnel {} times (steps {:?})", sent[i].len(), grams[i].len(), handed[i].len(), handed[i])));
+                    }
+                    if !first {
+                        out.spec.push(("C17:e2e:at-most-once".into(), format!("{dir}: step #{k}: a second copy of datagram {p}.{f} made the receiver hand packet #{i} to the tunnel")));
+                    }
+                    format!("{}pkt #{i}", if first { "" } else { "copy: " })
+                }
+                None => {
+                    let s = &sent[*p];
+                    let pos = s.iter().zip(b.iter()).position(|(x, y)| x != y);
+                    out.spec.push((
+                        "C17:e2e:integrity".into(),
+                        format!("{dir}: step #{k} (datagram {p}.{f}): {} B handed to the tunnel that are not a packet that was sent (packet #{p} has {} B; first differing byte at {:?})", b.len(), s.len(), pos),
+                    ));
+                    "pkt UNKNOWN".to_string()
+                }
+            }
+        } else {
+            label
+        };
+        // model: only datagrams the transport accepts reach the reassembler
+        if use_model && first {
+            if let Some(l) = lean.as_mut() {
+                let mo = l.ask(&format!("recv {}", hex(&frames[*p][*f])));
+                out.model_frames += 1;
+                let model_pkt = mo.strip_prefix("pkt ").and_then(|r| r.split_once(' ')).map(|(_, h)| h.to_string());
+                let agrees = match (&model_pkt, &got) {
+                    (Some(h), Some(b)) => *h == hex(b),
+                    (None, None) => mo == "none" || mo.starts_with("err "),
+                    _ => false,
+                };
+                if l.enabled && !agrees && out.disagree.is_none() {
+                    let cut = |s: &str| if s.len() > 120 { format!("{}…", &s[..120]) } else { s.to_string() };
+                    out.disagree = Some((k, cut(&label), cut(&mo)));
+                }
+            }
+        }
+        out.labels.push(label);
+    }
+    // ---- liveness ----
+    for i in 0..n {
+        let nf = grams[i].len();
+        if nf == 0 || acc[i].is_empty() {
+            continue;
+        }
+        if nf == 1 {
+            out.singles_claimed += 1;
+            let t = acc[i][0].0;
+            if !handed[i].contains(&t) {
+                out.spec.push(("C17:e2e:not-delivered:single-frame".into(), format!("{dir}: packet #{i} ({} B, one datagram) arrived at step #{t} and was not handed to the tunnel there ({})", sent[i].len(), out.labels[t])));
+            }
+            continue;
+        }
+        if acc[i].len() < nf {
+            continue;
+        }
+        let t0 = acc[i][0].0;
+        let t1 = acc[i].last().unwrap().0;
+        if !handed[i].contains(&t1) {
+            out.complete_not_handed_over += 1;
+        }
+        let Some(q) = q_eff else { continue };
+        if q == 0 {
+            continue;
+        }
+        let mut all = 0usize;
+        let mut newer = 0usize;
+        let mut disturbed = false;
+        for j in 0..n {
+            if j == i || grams[j].len() < 2 {
+                continue;
+            }
+            let Some(first_j) = acc[j].first().map(|x| x.0) else { continue };
+            if first_j > t1 {
+                continue;
+            }
+            if acc[j].iter().any(|(k, _)| *k > t0 && *k < t1) {
+                disturbed = true;
+            }
+            // retired: handed to the tunnel before t0 (all its datagrams are then copies the transport drops)
+            if handed[j].iter().any(|k| *k < t0) {
+                continue;
+            }
+            all += 1;
+            if j > i {
+                newer += 1;
+            }
+        }
+        let key = if all + 1 <= q {
+            "C17:e2e:not-delivered"
+        } else if newer + 1 <= q {
+            out.claims_older_only += 1;
+            "C17:e2e:not-delivered:older-packets-cannot-reclaim"
+        } else {
+            continue;
+        };
+        out.claims += 1;
+        if disturbed {
+            out.claims_disturbed += 1;
+        }
+        if !handed[i].contains(&t1) {
+            out.spec.push((
+                key.into(),
+                format!(
+                    "{dir}, {q} reassembly slots: packet #{i} ({} B, {nf} datagrams): first datagram at step #{t0}, all {nf} delivered by step #{t1}; {all} other packets can hold a slot up to then, {newer} of them sent after it; it was not handed to the tunnel at step #{t1} (result there: {}; handed over at steps {:?})",
+                    sent[i].len(), out.labels[t1], handed[i]
+                ),
+            ));
+        }
+    }
+    out
+}
+
+fn e2e_json(c: &E2e, o: &E2eOut) -> serde_json::Value {
+    json!({
+        "stream": "e2e", "kind": c.kind, "direction": if c.to_client { "server->client (client reassembles)" } else { "client->server (server reassembles)" },
+        "client_queues": c.queues, "mtu": c.mtu, "packet_sizes": c.sizes, "datagrams_per_packet": o.frames_per_packet,
+        "schedule (packet.datagram)": c.order.iter().map(|(p, f)| format!("{p}.{f}")).collect::<Vec<_>>().join(" "),
+        "results": o.labels, "line": e2e_line(c),
+    })
+}
+
+/// delta-debugging over the delivery schedule, then over trailing packets
+fn shrink_e2e(c: &E2e, server_q: Option<usize>, key: &str) -> E2e {
+    let fails = |x: &E2e| run_e2e(x, &mut None, server_q).spec.iter().any(|(k, _)| k == key);
+    let mut cur = c.clone();
+    let mut chunk = (cur.order.len() / 2).max(1);
+    let mut budget = 150;
+    while budget > 0 {
+        let mut progressed = false;
+        let mut i = 0;
+        while i < cur.order.len() && budget > 0 {
+            let mut cand = cur.clone();
+            let end = (i + chunk).min(cand.order.len());
+            cand.order.drain(i..end);
+            budget -= 1;
+            if fails(&cand) {
+                cur = cand;
+                progressed = true;
+            } else {
+                i += chunk;
+            }
+        }
+        if chunk == 1 && !progressed {
+            break;
+        }
+        chunk = (chunk / 2).max(1);
+    }
+    // packets after the last one the schedule mentions are not needed
+    let used = cur.order.iter().map(|(p, _)| p + 1).max().unwrap_or(0);
+    if used < cur.sizes.len() {
+        let mut cand = cur.clone();
+        cand.sizes.truncate(used);
+        if fails(&cand) {
+            cur = cand;
+        }
+    }
+    cur
+}
+
+/// number of datagrams the sender is expected to produce (used only to build schedules)
+fn e2e_nframes(size: usize, mtu: u16) -> usize {
+    let p = (mtu as usize).clamp(MIN_MTU, MAX_MTU) - HDR;
+    if size == 0 || size > MAX_PACKET_SIZE { 0 } else { size.div_ceil(p) }
+}
+
+fn e2e_mtu(rng: &mut Rng) -> u16 {
+    let c = [0usize, 1, MIN_MTU - 1, MIN_MTU, MIN_MTU + 1, 300, 576, 1280, 1420, 1500, MAX_MTU - 1, MAX_MTU, MAX_MTU + 1, 65535];
+    (if rng.chance(3, 4) { *rng.pick(&c) } else { rng.range(MIN_MTU as u64, 2000) as usize }) as u16
+}
+
+/// boundary-directed packet size for payload size `p` per frame; `multi` forces at least two frames
+fn e2e_size(rng: &mut Rng, p: usize, multi: bool, big: bool) -> usize {
+    let c = [1, 2, p - 1, p, p + 1, 2 * p - 1, 2 * p, 2 * p + 1, 3 * p, 3 * p + 1, 4 * p + 7, 5 * p];
+    let mut v = if rng.chance(2, 3) { *rng.pick(&c) } else { rng.range(1, (6 * p) as u64) as usize };
+    if big && rng.chance(1, 2) {
+        v = *rng.pick(&[MAX_PACKET_SIZE, MAX_PACKET_SIZE - 1, MAX_PACKET_SIZE + 1, 0, 40 * p, 127 * p + 1, 128 * p, 129 * p]);
+        if multi && (v == 0 || v > MAX_PACKET_SIZE) {
+            v = MAX_PACKET_SIZE;
+        }
+    }
+    if multi && v <= p {
+        v = p + 1 + rng.below(2 * p as u64) as usize;
+    }
+    v.min(MAX_PACKET_SIZE + 1)
+}
+
+fn gen_e2e(rng: &mut Rng, server_q: Option<usize>) -> E2e {
+    let to_client = rng.chance(3, 4);
+    let queues = if to_client { *rng.pick(&[1usize, 1, 1, 2, 2, 2, 2, 3, 3, 3, 4, 0]) } else { *rng.pick(&[1usize, 2, 8]) };
+    let q = if to_client { queues } else { server_q.unwrap_or(8) };
+    let mtu = e2e_mtu(rng);
+    let p = (mtu as usize).clamp(MIN_MTU, MAX_MTU) - HDR;
+    let mode = rng.below(9);
+    let big = rng.chance(1, 10);
+    let seed = rng.next();
+    let mut sizes: Vec<usize> = vec![];
+    let mut order: Vec<(usize, usize)> = vec![];
+    let all_frames = |sizes: &[usize], i: usize| -> Vec<(usize, usize)> { (0..e2e_nframes(sizes[i], mtu)).map(|f| (i, f)).collect() };
+    let kind;
+    match mode {
+        // windows of at most Q packets in flight: in order / frames reversed / shuffled / shuffled + copies + loss
+        0..=3 => {
+            let npk = rng.range(1, (q.max(1) + 3) as u64) as usize;
+            for _ in 0..npk {
+                sizes.push(e2e_size(rng, p, false, big));
+            }
+            let idx: Vec<usize> = (0..npk).collect();
+            for win in idx.chunks(q.max(1)) {
+                let mut w: Vec<(usize, usize)> = vec![];
+                for i in win {
+                    let mut fs = all_frames(&sizes, *i);
+                    if mode == 1 {
+                        fs.reverse();
+                    }
+                    if mode == 3 && fs.len() > 1 && rng.chance(1, 6) {
+                        fs.remove(rng.below(fs.len() as u64) as usize);
+                    }
+                    w.extend(fs);
+                }
+                if mode >= 2 {
+                    rng.shuffle(&mut w);
+                }
+                if mode == 3 {
+                    for k in 0..w.len() {
+                        if rng.chance(1, 4) {
+                            let pos = rng.range(0, w.len() as u64) as usize;
+                            let d = w[k];
+                            w.insert(pos, d);
+                        }
+                    }
+                }
+                order.extend(w);
+            }
+            kind = ["e2e in-order", "e2e reversed", "e2e shuffled", "e2e shuffled+copies+loss"][mode as usize];
+        }
+        // overload: Q+1..Q+3 multi-frame packets in flight at once, round-robin or shuffled (+ copies)
+        4 | 5 => {
+            let npk = q + 1 + rng.below(3) as usize;
+            for _ in 0..npk {
+                sizes.push(e2e_size(rng, p, true, false));
+            }
+            if mode == 4 {
+                let longest = (0..npk).map(|i| e2e_nframes(sizes[i], mtu)).max().unwrap_or(0);
+                for f in 0..longest {
+                    for i in 0..npk {
+                        if f < e2e_nframes(sizes[i], mtu) {
+                            order.push((i, f));
+                        }
+                    }
+                }
+            } else {
+                for i in 0..npk {
+                    order.extend(all_frames(&sizes, i));
+                }
+                rng.shuffle(&mut order);
+                for k in 0..order.len() {
+                    if rng.chance(1, 5) {
+                        let pos = rng.range(0, order.len() as u64) as usize;
+                        let d = order[k];
+                        order.insert(pos, d);
+                    }
+                }
+            }
+            kind = if mode == 4 { "e2e overload round-robin" } else { "e2e overload shuffled+copies" };
+        }
+        // late frames of older packets: `older` packets are sent first but (mostly) arrive late, while the Q
+        // packets sent after them occupy every slot; then the rest of everything
+        6 | 7 => {
+            let older = rng.range(1, 2) as usize;
+            let npk = older + q.max(1);
+            for _ in 0..npk {
+                sizes.push(e2e_size(rng, p, true, false));
+            }
+            let mut late: Vec<(usize, usize)> = vec![];
+            for i in 0..older {
+                let mut fs = all_frames(&sizes, i);
+                if mode == 7 {
+                    rng.shuffle(&mut fs);
+                }
+                // sometimes the older packet got a slot first (and is evicted by the newer ones)
+                if rng.chance(1, 3) && fs.len() > 1 {
+                    order.push(fs.remove(0));
+                }
+                late.extend(fs);
+            }
+            let mut rest: Vec<(usize, usize)> = vec![];
+            for i in older..npk {
+                let mut fs = all_frames(&sizes, i);
+                if mode == 7 {
+                    rng.shuffle(&mut fs);
+                }
+                if fs.is_empty() {
+                    continue;
+                }
+                let head = rng.range(1, (fs.len() - 1).max(1) as u64) as usize;
+                order.extend(fs.drain(..head.min(fs.len())));
+                rest.extend(fs);
+            }
+            // some or all late frames, then the rest of the newer packets (per packet or interleaved), then what is left
+            let cut = rng.range(1, late.len().max(1) as u64) as usize;
+            let tail: Vec<(usize, usize)> = late.split_off(cut.min(late.len()));
+            order.extend(late);
+            if mode == 7 {
+                rng.shuffle(&mut rest);
+            }
+            if rng.chance(1, 2) {
+                // a late frame in the middle of the rest as well
+                let mut tail = tail;
+                if !tail.is_empty() && !rest.is_empty() {
+                    let pos = rng.range(0, rest.len() as u64) as usize;
+                    rest.insert(pos, tail.remove(0));
+                }
+                order.extend(rest);
+                order.extend(tail);
+            } else {
+                order.extend(rest);
+                order.extend(tail);
+            }
+            kind = if mode == 6 { "e2e late older packets" } else { "e2e late older packets, shuffled" };
+        }
+        // network model: per-datagram delay (mostly small, sometimes long), loss, copies
+        _ => {
+            let npk = rng.range(2, (q.max(1) + 4) as u64) as usize;
+            for _ in 0..npk {
+                let multi = rng.chance(2, 3);
+                sizes.push(e2e_size(rng, p, multi, big));
+            }
+            let mut timed: Vec<(u64, (usize, usize))> = vec![];
+            let mut t = 0u64;
+            for i in 0..npk {
+                for d in all_frames(&sizes, i) {
+                    t += 10;
+                    if rng.chance(1, 12) {
+                        continue; // lost
+                    }
+                    let delay = match rng.below(6) {
+                        0 => rng.below(400),
+                        1 => rng.below(60),
+                        _ => rng.below(15),
+                    };
+                    timed.push((t + delay, d));
+                    if rng.chance(1, 8) {
+                        timed.push((t + delay + rng.below(200), d));
+                    }
+                }
+            }
+            timed.sort();
+            order = timed.into_iter().map(|(_, d)| d).collect();
+            kind = "e2e network model (delay/loss/copies)";
+        }
+    }
+    // stay well inside the transport's reorder window
+    let mut total = 0usize;
+    for s in sizes.iter_mut() {
+        let nf = e2e_nframes(*s, mtu);
+        if total + nf > E2E_MAX_DATAGRAMS {
+            *s = p + 1;
+        }
+        total += e2e_nframes(*s, mtu);
+    }
+    let nfr: Vec<usize> = sizes.iter().map(|s| e2e_nframes(*s, mtu)).collect();
+    order.retain(|(i, f)| *f < nfr[*i]);
+    E2e { kind: kind.into(), to_client, queues, mtu, seed, sizes, order }
+}
+
+/// every delivery order of all datagrams of small multi-frame packets (server -> client, minimum MTU)
+fn gen_e2e_exhaustive(rng: &mut Rng, frames_per_packet: &[usize], queues: usize, out: &mut Vec<E2e>) {
+    let p = MIN_MTU - HDR;
+    let sizes: Vec<usize> = frames_per_packet.iter().map(|n| (n - 1) * p + rng.range(1, p as u64) as usize).collect();
+    let mut all: Vec<(usize, usize)> = vec![];
+    for (i, n) in frames_per_packet.iter().enumerate() {
+        all.extend((0..*n).map(|f| (i, f)));
+    }
+    let seed = rng.next();
+    let mut perm: Vec<usize> = (0..all.len()).collect();
+    loop {
+        out.push(E2e { kind: "e2e exhaustive".into(), to_client: true, queues, mtu: MIN_MTU as u16, seed, sizes: sizes.clone(), order: perm.iter().map(|k| all[*k]).collect() });
+        if !next_perm(&mut perm) {
+            break;
+        }
+    }
+}
+
 fn main() {
     let args = Args::parse();
     quiet_panics();
@@ -752,20 +1579,34 @@ fn main() {
          packets in flight), exhaustive schedules are all permutations (plus one duplicate / one loss) of the \
          frames of 2-3 small honest packets, hostile schedules are boundary-directed arbitrary frames. \
          Non-trivial = at least one packet emitted from a reassembly queue or at least one error other than \
-         invalid_header; distinct by hash of (queues, frame headers, lengths)",
+         invalid_header; distinct by hash of (queues, frame headers, lengths). \
+         e2e cases = (direction, client queue count, MTU, packet sizes, delivery schedule of the encrypted \
+         datagrams) run through a real EdgeTunServerState + EdgeTunClientState after a WireGuard handshake \
+         (windows of <= Q packets, overload Q+1..Q+3, late frames of older packets, delay/loss/copies, all \
+         permutations of 2x2 frames on 1 slot and 3x2 frames on 2 slots); non-trivial = a packet handed to the \
+         tunnel after reassembly or a completely delivered multi-frame packet not handed over",
     );
     let mut schedules: Vec<Schedule> = vec![];
+    let mut e2e_cases: Vec<E2e> = vec![];
     for l in read_corpus(&args.corpus) {
+        if l.trim_start().starts_with("e2e ") {
+            match parse_e2e_line(&l) {
+                Some(c) => e2e_cases.push(c),
+                None => rep.notes.push(format!("unparseable e2e corpus line: {}", &l[..l.len().min(60)])),
+            }
+            continue;
+        }
         match parse_corpus_line(&l) {
             Some(s) => schedules.push(s),
             None => rep.notes.push(format!("unparseable corpus line: {}", &l[..l.len().min(40)])),
         }
     }
-    let n_corpus = schedules.len();
+    let n_corpus = schedules.len() + e2e_cases.len();
     if let Some(p) = &args.replay {
         // replay file: corpus-format lines
         let txt = std::fs::read_to_string(p).expect("replay file");
-        schedules = txt.lines().filter_map(parse_corpus_line).collect();
+        schedules = txt.lines().filter(|l| !l.trim_start().starts_with("e2e ")).filter_map(parse_corpus_line).collect();
+        e2e_cases = txt.lines().filter_map(parse_e2e_line).collect();
     } else {
         let n = args.scale(800, 30000);
         for i in 0..n {
@@ -832,6 +1673,41 @@ fn main() {
             rep.spec_fail("C17:panic", "Fragmenter::send panicked or failed on a probe packet (300 bytes at MTU 272, stream offset u64::MAX or small)", json!({"size": 300, "mtu": MIN_MTU}));
         }
     }
+    // e2e stream (generated after everything else so that the bare stream of a given seed is unchanged)
+    let server_q = server_queue_count();
+    if server_q.is_none() {
+        rep.notes.push("e2e: queue count of the server's Defragmenter not found in data/server.rs: no liveness oracle / model for the client->server direction".into());
+    }
+    let n_e2e_corpus = e2e_cases.len();
+    if args.replay.is_none() {
+        // the late-frame schedule of three 3-frame packets on two slots: 1.0 2.0 fill both slots, 0.0 is too old
+        // (HX_FRAG_E2E_NO_PROBE=1 leaves the probe out: used to see whether the generators alone find a change)
+        if std::env::var_os("HX_FRAG_E2E_NO_PROBE").is_none() {
+            e2e_cases.push(E2e {
+                kind: "e2e probe late older packet".into(),
+                to_client: true,
+                queues: 2,
+                mtu: 1420,
+                seed: rng.next(),
+                sizes: vec![3000, 3000, 3000],
+                order: vec![(1, 0), (2, 0), (0, 0), (1, 1), (1, 2), (2, 1), (2, 2), (0, 1), (0, 2)],
+            });
+        }
+        for _ in 0..args.scale(360, 8000) {
+            e2e_cases.push(gen_e2e(&mut rng, server_q));
+        }
+        gen_e2e_exhaustive(&mut rng, &[2, 2], 1, &mut e2e_cases);
+        gen_e2e_exhaustive(&mut rng, &[2, 2, 2], 2, &mut e2e_cases);
+        if args.thorough() {
+            gen_e2e_exhaustive(&mut rng, &[2, 2], 2, &mut e2e_cases);
+            gen_e2e_exhaustive(&mut rng, &[3, 2], 1, &mut e2e_cases);
+            gen_e2e_exhaustive(&mut rng, &[2, 3], 1, &mut e2e_cases);
+            gen_e2e_exhaustive(&mut rng, &[2, 2, 2], 1, &mut e2e_cases);
+            gen_e2e_exhaustive(&mut rng, &[2, 2, 2], 3, &mut e2e_cases);
+            gen_e2e_exhaustive(&mut rng, &[3, 2, 2], 2, &mut e2e_cases);
+            gen_e2e_exhaustive(&mut rng, &[2, 2, 2, 2], 3, &mut e2e_cases);
+        }
+    }
     rep.hit_n("corpus schedules", n_corpus as u64);
     for s in &schedules {
         let o = run_schedule(s, &mut Some(&mut lean));
@@ -875,6 +1751,74 @@ fn main() {
             rep.spec_fail(key, &what2, json!({"schedule": sched_json(&small), "line": sched_line(&small)}));
         }
     }
+    let mut e2e_samples = 0;
+    let e2e_t0 = Instant::now();
+    for (ci, c) in e2e_cases.iter().enumerate() {
+        // model correspondence on every case of the corpus / replay / probes / random stream and on every third
+        // exhaustive permutation (the Lean driver costs ~1 ms per frame)
+        let with_model = c.kind != "e2e exhaustive" || ci % 3 == 0;
+        let o = if with_model { run_e2e(c, &mut Some(&mut lean), server_q) } else { run_e2e(c, &mut None, server_q) };
+        let canon = format!("e2e|{}|{}|{}|{:?}|{:?}", c.to_client, c.queues, c.mtu, c.sizes, c.order);
+        let nontrivial = o.handed_over_reassembled > 0 || o.complete_not_handed_over > 0;
+        rep.case(&canon, nontrivial);
+        rep.traces += 1;
+        rep.hit(&format!("schedule {}", c.kind));
+        rep.hit(if c.to_client { "e2e direction server->client" } else { "e2e direction client->server" });
+        if c.to_client {
+            rep.hit(&format!("e2e client queues {}", c.queues));
+        }
+        let eff = (c.mtu as usize).clamp(MIN_MTU, MAX_MTU);
+        rep.hit(&format!("e2e mtu {}", if c.mtu as usize != eff { "clamped (below MIN / above MAX)" } else if eff == MIN_MTU || eff == MAX_MTU { "at MIN / MAX" } else { "inside" }));
+        for (nf, sz) in o.frames_per_packet.iter().zip(&c.sizes) {
+            rep.hit(&format!("e2e datagrams/packet {}", match nf { 0 => "0 (rejected: empty / oversize)", 1 => "1", 2 => "2", 3..=8 => "3-8", _ => "9+" }));
+            let p = eff - HDR;
+            if *sz > 0 && (sz % p == 0 || sz % p == 1 || sz % p == p - 1) {
+                rep.hit("e2e packet size within 1 of a multiple of the frame payload");
+            }
+            if *sz >= MAX_PACKET_SIZE - 1 {
+                rep.hit("e2e packet size MAX-1 / MAX / MAX+1");
+            }
+        }
+        rep.hit_n("e2e datagrams delivered", o.labels.len() as u64);
+        rep.hit_n("e2e copies of a datagram delivered (dropped by the transport)", o.dup_dropped as u64);
+        rep.hit_n("e2e packets handed to the tunnel", o.handed_over as u64);
+        rep.hit_n("e2e packets handed to the tunnel after reassembly", o.handed_over_reassembled as u64);
+        rep.hit_n("e2e multi-frame packets completely delivered but not handed over (evicted / refused as too old)", o.complete_not_handed_over as u64);
+        rep.hit_n("e2e liveness demanded (multi-frame)", o.claims as u64);
+        rep.hit_n("e2e liveness demanded only because older packets cannot reclaim", o.claims_older_only as u64);
+        rep.hit_n("e2e liveness demanded despite interleaving before completion", o.claims_disturbed as u64);
+        rep.hit_n("e2e liveness demanded (single-frame)", o.singles_claimed as u64);
+        rep.hit_n("e2e frames fed to the model", o.model_frames as u64);
+        {
+            let multi = o.frames_per_packet.iter().filter(|n| **n > 1).count();
+            let q = if c.to_client { Some(c.queues) } else { server_q };
+            if q.map_or(false, |q| multi > q) {
+                rep.hit("e2e case with more multi-frame packets than slots");
+            }
+        }
+        if e2e_samples < 2 && nontrivial && c.order.len() <= 9 && c.kind != "e2e exhaustive" {
+            e2e_samples += 1;
+            rep.samples.truncate(4);
+            rep.sample(e2e_json(c, &o));
+        }
+        if let Some((k, im, mo)) = &o.disagree {
+            rep.disagree("e2e-glue", json!({"case": e2e_json(c, &o), "line": e2e_line(c), "step": k}), im, mo);
+        }
+        let mut seen = std::collections::HashSet::new();
+        for (key, what) in &o.spec {
+            if !seen.insert(key.clone()) {
+                continue;
+            }
+            let small = shrink_e2e(c, server_q, key);
+            let o2 = run_e2e(&small, &mut None, server_q);
+            let what2 = o2.spec.iter().find(|(kk, _)| kk == key).map(|(_, w)| w.clone()).unwrap_or(what.clone());
+            let mut j = e2e_json(&small, &o2);
+            j["found_in"] = json!(e2e_line(c));
+            rep.spec_fail(key, &what2, j);
+        }
+    }
+    rep.hit_n("corpus e2e cases", n_e2e_corpus as u64);
+    eprintln!("[hx_frag] e2e stream: {} cases in {:.1} s", e2e_cases.len(), e2e_t0.elapsed().as_secs_f64());
     if rep.samples.is_empty() {
         if let Some(s) = schedules.first() {
             rep.sample(sched_json(s));
